@@ -163,3 +163,23 @@ Definition upnp_discovery (fetch_ok xml_ok : bool) : res unit :=
 (* LLDP frames through the dispatcher: IsValid (len >= 6) then GetPDU *)
 Definition lldp_process (fuel : nat) (p : slice) (pdu : nat) : res unit :=
   if Nat.ltb (len p) 6 then Err EFrameLen else lldp_get_pdu fuel p pdu 0.
+
+(* ---------------------------------------------------------------- mDNS TXT (mdnsService.go:53) *)
+(* parseTXT(txt []string): len(txt) <= 2 -> ""; for each string: a := strings.Split(v, "=");
+   len(a) < 2 -> continue; switch a[0] { "model", "ty", "DvTy", "md": return a[1] }.
+   Returns whether a model string was found; a[0], a[1] are indexed behind the length test. *)
+Definition txt_keys : list bytes :=
+  [[109; 111; 100; 101; 108]; [116; 121]; [68; 118; 84; 121]; [109; 100]].   (* model ty DvTy md *)
+Fixpoint parse_txt_loop (txt : list bytes) : res bool :=
+  match txt with
+  | [] => Ok false
+  | v :: rest =>
+      let a := split_eq v [] in
+      if Nat.ltb (List.length a) 2 then parse_txt_loop rest
+      else match nth_error a 0, nth_error a 1 with
+           | Some k, Some _ => if existsb (bytes_eqb k) txt_keys then Ok true else parse_txt_loop rest
+           | _, _ => Panic
+           end
+  end.
+Definition parse_txt (txt : list bytes) : res bool :=
+  if Nat.leb (List.length txt) 2 then Ok false else parse_txt_loop txt.
